@@ -1,19 +1,27 @@
 #!/bin/bash
 # self-test of the machinery: every stored seeded change must be reported by the check of the
-# property it breaks. Applies each patch to /repo in turn and always restores the tree.
+# property it breaks. Applies each patch to the repository (VERIF_REPO, default /repo) in turn and
+# always restores the tree (git apply -R, so it also works on a plain copy of the repository).
 # usage: harness/seed_all.sh [seed-dir-name ...]      (default: all of seeded/*)
 cd "$(dirname "$0")/.."
-if [ -n "$(git -C /repo status --short)" ]; then echo "/repo is not clean"; exit 2; fi
-trap 'git -C /repo checkout -- . 2>/dev/null' EXIT
+REPO=${VERIF_REPO:-/repo}
+export VERIF_REPO=$REPO
+if [ -d $REPO/.git ] || [ -f $REPO/.git ]; then
+  if [ -n "$(git -C $REPO status --short)" ]; then echo "$REPO is not clean"; exit 2; fi
+fi
+cur=""
+restore() { if [ -n "$cur" ]; then (cd $REPO && git apply -R "$cur" 2>/dev/null); cur=""; fi; }
+trap restore EXIT
 names="$@"; [ -z "$names" ] && names=$(ls seeded)
 missed=0
 for n in $names; do
-  d=seeded/$n
+  d=$PWD/seeded/$n
   [ -f $d/meta.json ] || continue
   pid=$(python3 -c "import json,sys; print(json.load(open('$d/meta.json'))['breaks'].split()[0])")
-  if ! git -C /repo apply "$PWD/$d/patch.diff" 2>/dev/null; then echo "$n: patch does not apply"; missed=$((missed+1)); continue; fi
+  if ! (cd $REPO && git apply "$d/patch.diff" 2>/dev/null); then echo "$n: patch does not apply"; missed=$((missed+1)); continue; fi
+  cur="$d/patch.diff"
   out=$(timeout ${VERIF_TIMEOUT:-1700} ./check $pid 2>/dev/null | grep -E "^VIOLATION property=$pid " | head -1)
-  git -C /repo checkout -- .
+  restore
   if [ -n "$out" ]; then echo "$n: caught by $pid ($out)"; else echo "$n: MISSED by $pid"; missed=$((missed+1)); fi
 done
 echo "missed=$missed"
